@@ -6,8 +6,10 @@
         quotes bare in character data; comments;
      3. canonical_bytes_read_back :  read_tree (c14n_write p) = Ok (normalise p)   for every element tree p whose names the
         real reader splits back and whose values are well-formed text in the XML Char range ([c14n_wf]);
-     4. canon_model a t = Some b  ->  read_tree b = Ok (normalise (the prepared tree));  the premise carried over from t to the
-        prepared tree for the inclusive algorithms (canonicalPrep only sorts and drops attributes);
+     4. canon_model a t = Some b  ->  read_tree b = Ok (normalise (the prepared tree));  the premise carried over from the
+        presented element t to the prepared tree for every algorithm (canonicalPrep only sorts and drops attributes;
+        TransformExcC14n adds declarations whose prefix and value come from a declaration in scope) and through
+        removeElementAtPath;
      5. dsig_sound_reader : Dsig.v's soundness with canon := canon_model and reparse := reparse_model.
 
    What [c14n_wf] excludes, explicitly: directives inside the canonicalised element (the canonicalisers keep them; the
@@ -619,6 +621,164 @@ Proof.
     rewrite canonical_prep_is_elem, HE; cbn [andb]; apply canonical_prep_wf, W.
 Qed.
 
+(* ---- ... and for the exclusive algorithms ----
+   TransformExcC14n drops the declarations and ADDS xmlns / xmlns:p attributes for the visibly used prefixes, with the value in
+   scope.  Prefix and value come from a declaration attribute of the element or an ancestor (or from the default context), so
+   the added attribute is reader-valid because that declaration was: no arithmetic on names is needed. *)
+Definition ctx_entry_ok (kv : string * string) : Prop :=
+  valid_xml_text (snd kv) = true /\ (fst kv = "" \/ xname_ok "xmlns" (fst kv) = true).
+Definition ctx_ok (ctx : nsctx) : Prop := Forall ctx_entry_ok ctx.
+
+Lemma default_ctx_ok : ctx_ok default_ctx.
+Proof.
+  unfold ctx_ok, default_ctx.
+  constructor; [split; [vm_compute; reflexivity | left; reflexivity]|].
+  constructor; [split; [vm_compute; reflexivity | right; vm_compute; reflexivity]|].
+  constructor; [split; [vm_compute; reflexivity | right; vm_compute; reflexivity]|].
+  constructor.
+Qed.
+
+Lemma lookup_ok : forall ctx p ns, ctx_ok ctx -> lookup_prefix ctx p = Some ns ->
+  valid_xml_text ns = true /\ (p = "" \/ xname_ok "xmlns" p = true).
+Proof.
+  induction ctx as [|[k v] r IH]; intros p ns HC HL; [discriminate|].
+  inversion HC as [|? ? [Hv Hk] Hr]; subst. cbn [lookup_prefix] in HL. cbn [fst snd] in *.
+  destruct (k =?s p) eqn:E.
+  - apply String.eqb_eq in E. subst k. injection HL as <-. split; assumption.
+  - apply (IH p ns Hr HL).
+Qed.
+
+Lemma sub_context_ok : forall attrs ctx c, ctx_ok ctx -> Forall (fun x => cattr_ok x = true) attrs ->
+  sub_context ctx attrs = Ok c -> ctx_ok c.
+Proof.
+  induction attrs as [|a r IH]; intros ctx c HC HA HS.
+  - cbn [sub_context] in HS. injection HS as <-. exact HC.
+  - inversion HA as [|? ? Ha Hr]; subst. cbn [sub_context] in HS.
+    unfold cattr_ok in Ha. apply andb_true_iff in Ha as [Hn Hv].
+    destruct (at_space a =?s "xmlns") eqn:E1.
+    + apply String.eqb_eq in E1. rewrite E1 in Hn.
+      destruct ((at_key a =?s "xml") && negb (at_val a =?s XMLNamespace)); [discriminate|].
+      destruct (at_key a =?s "xmlns"); [discriminate|].
+      apply (IH ((at_key a, at_val a) :: ctx) c); [|exact Hr|exact HS]. constructor; [|exact HC]. split; [exact Hv | right; exact Hn].
+    + destruct ((at_space a =?s "") && (at_key a =?s "xmlns")).
+      * destruct (at_val a =?s XMLNSNamespace); [discriminate|].
+        apply (IH (("", at_val a) :: ctx) c); [|exact Hr|exact HS]. constructor; [|exact HC]. split; [exact Hv | left; reflexivity].
+      * apply (IH _ c HC Hr HS).
+Qed.
+
+Lemma sub_ctx_ok attrs ctx c : ctx_ok ctx -> Forall (fun x => cattr_ok x = true) attrs -> sub_ctx ctx attrs = Ok c -> ctx_ok c.
+Proof.
+  unfold sub_ctx. intros HC HA HS. destruct (sub_context ctx attrs) as [c'|e] eqn:E; [|discriminate].
+  injection HS as <-. exact (sub_context_ok attrs ctx c' HC HA E).
+Qed.
+
+Lemma exc_scan_keep (P : attr -> Prop) incl : forall attrs, Forall P attrs -> Forall P (snd (exc_scan attrs incl)).
+Proof.
+  induction attrs as [|a r IH]; intros H; [constructor|].
+  inversion H as [|? ? Ha Hr]; subst. specialize (IH Hr). cbn [exc_scan].
+  destruct (exc_scan r incl) as [vis keep]. cbn [snd] in *.
+  destruct (at_space a =?s "xmlns"); [exact IH|]. destruct (is_default_decl a); [exact IH|]. cbn [snd]. constructor; assumption.
+Qed.
+
+Lemma exc_declare_ok scope : ctx_ok scope -> forall vis declared da,
+  exc_declare vis scope declared = Ok da -> Forall (fun x => cattr_ok x = true) (snd da).
+Proof.
+  intros HC. induction vis as [|p r IH]; intros declared da HD.
+  - cbn [exc_declare] in HD. injection HD as <-. constructor.
+  - cbn [exc_declare] in HD.
+    destruct (match lookup_prefix declared p, lookup_prefix scope p with Some d, Some v => d =?s v | _, _ => false end).
+    + apply (IH declared da HD).
+    + destruct (lookup_prefix scope p) as [ns|] eqn:EL; [|discriminate].
+      destruct (exc_declare r scope ((p, ns) :: declared)) as [rest|e] eqn:ER; [|discriminate].
+      cbn [bind] in HD. injection HD as <-. cbn [snd].
+      destruct (lookup_ok scope p ns HC EL) as [Hv Hp].
+      constructor; [|apply (IH _ rest ER)].
+      unfold cattr_ok. destruct (p =?s "") eqn:Ep; cbn [at_space at_key at_val]; rewrite Hv, andb_true_r.
+      * vm_compute. reflexivity.
+      * destruct Hp as [Hp|Hp]; [subst p; discriminate Ep | exact Hp].
+Qed.
+
+Lemma exc_prep_wf : forall n ctx declared incl c p, ctx_ok ctx -> c14n_wf n = true ->
+  exc_prep ctx declared incl c n = Ok p -> c14n_wf p = true /\ is_elem p = is_elem n.
+Proof.
+  induction n as [sp t a k IHk | | | |] using node_ind_kids; intros ctx declared incl c p HC W HP;
+    try (cbn [exc_prep] in HP; injection HP as <-; split; [exact W | reflexivity]).
+  rewrite exc_prep_elem in HP. cbn [c14n_wf] in W.
+  apply andb_true_iff in W as [W Wk]. apply andb_true_iff in W as [Wn Wa].
+  apply forallb_Forall_true in Wa.
+  destruct (sub_ctx ctx a) as [scope|e] eqn:ES; [|discriminate]. cbn [bind] in HP.
+  destruct (exc_declare (sp :: fst (exc_scan a incl)) scope declared) as [da|e] eqn:ED; [|discriminate]. cbn [bind] in HP.
+  destruct (eprep_kids scope (fst da) incl c k) as [kids'|e] eqn:EK; [|discriminate]. cbn [bind] in HP.
+  injection HP as <-. split; [|reflexivity].
+  pose proof (sub_ctx_ok a ctx scope HC Wa ES) as HS.
+  cbn [c14n_wf]. rewrite Wn. cbn [andb]. apply andb_true_iff. split.
+  - apply forallb_Forall_true. apply sort_attrs_Forall. apply Forall_app. split.
+    + apply exc_scan_keep, Wa.
+    + apply (exc_declare_ok scope HS _ _ _ ED).
+  - clear ED Wn Wa ES. generalize dependent kids'. generalize (fst da). intros dcl.
+    induction k as [|x k IH]; intros kids' EK.
+    + cbn [eprep_kids] in EK. injection EK as <-. reflexivity.
+    + inversion IHk as [|? ? Hx Hk]; subst. cbn [forallb] in Wk. apply andb_true_iff in Wk as [W1 W2].
+      cbn [eprep_kids] in EK. destruct (negb c && is_comment x); [apply (IH Hk W2 _ EK)|].
+      destruct (exc_prep scope dcl incl c x) as [x'|e] eqn:EX; [|discriminate]. cbn [bind] in EK.
+      destruct (eprep_kids scope dcl incl c k) as [r'|e] eqn:ER; [|discriminate]. cbn [bind] in EK.
+      injection EK as <-. cbn [forallb]. destruct (Hx scope dcl incl c x' HS W1 EX) as [Wx _]. rewrite Wx. cbn [andb].
+      apply (IH Hk W2 _ eq_refl).
+Qed.
+
+(* every algorithm: the premise stated on the PRESENTED element *)
+Theorem canon_prep_wf a t p : c14n_wf_elem t = true -> canon_prep a t = Some p -> c14n_wf_elem p = true.
+Proof.
+  unfold c14n_wf_elem. intros W HP. apply andb_true_iff in W as [HE W].
+  destruct a as [pl c|c|c|]; cbn [canon_prep] in HP.
+  - destruct (exc_prep default_ctx default_ctx (fields pl) c t) as [q|e] eqn:EQ; [|discriminate]. injection HP as <-.
+    destruct (exc_prep_wf t _ _ _ _ _ default_ctx_ok W EQ) as [Wq Eq]. rewrite Eq, HE, Wq. reflexivity.
+  - injection HP as <-. rewrite canonical_prep_is_elem, HE. cbn [andb]. apply canonical_prep_wf, W.
+  - injection HP as <-. rewrite canonical_prep_is_elem, HE. cbn [andb]. apply canonical_prep_wf, W.
+  - injection HP as <-. rewrite canonical_prep_is_elem, HE. cbn [andb]. apply canonical_prep_wf, W.
+Qed.
+
+Theorem canonical_bytes_reparse_presented a t b :
+  c14n_wf_elem t = true -> canon_model a t = Some b ->
+  exists p, canon_prep a t = Some p /\ read_tree b = Ok (normalise p) /\ reparse_model b = Some (normalise p).
+Proof.
+  intros W HB. destruct (canonical_bytes_reparse_to_prepared_tree a t b HB) as (p & HP & _ & HR).
+  exists p. split; [exact HP|]. apply HR. exact (canon_prep_wf a t p W HP).
+Qed.
+
+(* ---- removeElementAtPath keeps the premise ---- *)
+Lemma forallb_remove_nth {A} (f : A -> bool) : forall i l, forallb f l = true -> forallb f (remove_nth i l) = true.
+Proof.
+  induction i as [|i IH]; intros [|x l] H; try reflexivity; cbn [remove_nth forallb] in *;
+    apply andb_true_iff in H as [H1 H2]; [exact H2|]. rewrite H1. cbn [andb]. apply IH, H2.
+Qed.
+Lemma forallb_replace_nth {A} (f : A -> bool) : forall i x l, forallb f l = true -> f x = true -> forallb f (replace_nth i x l) = true.
+Proof.
+  induction i as [|i IH]; intros x [|y l] H Hx; try reflexivity; cbn [replace_nth forallb] in *;
+    apply andb_true_iff in H as [H1 H2]; [rewrite Hx, H2; reflexivity|]. rewrite H1. cbn [andb]. apply IH; assumption.
+Qed.
+Lemma forallb_nth_error {A} (f : A -> bool) : forall i l x, forallb f l = true -> nth_error l i = Some x -> f x = true.
+Proof.
+  induction i as [|i IH]; intros [|y l] x H HN; try discriminate; cbn [nth_error forallb] in *;
+    apply andb_true_iff in H as [H1 H2]; [injection HN as <-; exact H1 | apply (IH l x H2 HN)].
+Qed.
+
+Lemma remove_at_path_wf : forall path el el', c14n_wf el = true -> remove_at_path el path = Some el' ->
+  c14n_wf el' = true /\ is_elem el' = true.
+Proof.
+  induction path as [|i rest IH]; intros el el' W HR; [discriminate|].
+  cbn [remove_at_path] in HR. destruct el as [sp tg attrs kids| | | |]; try discriminate.
+  destruct (nth_error kids i) as [c|] eqn:EN; [|discriminate].
+  destruct c as [csp ctg ca ck| | | |]; try discriminate.
+  cbn [c14n_wf] in W. apply andb_true_iff in W as [Wna Wk].
+  destruct rest as [|j rest'].
+  - injection HR as <-. split; [|reflexivity]. cbn [c14n_wf]. rewrite Wna. cbn [andb]. apply forallb_remove_nth, Wk.
+  - destruct (remove_at_path (Elem csp ctg ca ck) (j :: rest')) as [c'|] eqn:EC; [|discriminate].
+    injection HR as <-. split; [|reflexivity]. cbn [c14n_wf]. rewrite Wna. cbn [andb].
+    apply forallb_replace_nth; [exact Wk|].
+    apply (IH (Elem csp ctg ca ck) c' (forallb_nth_error _ _ _ _ Wk EN) EC).
+Qed.
+
 (* ================================================================ 6. soundness with both oracles instantiated *)
 Section Reader.
   Variable digest : string -> string -> option string.
@@ -665,7 +825,9 @@ Section Reader.
            remove_at_path root (fs_path f) = Some body /\ canon_prep c0 body = Some p /\
            base64_decode (ref_digest_value r) = Some want /\ digest (ref_digest_alg r) (c14n_write p) = Some want /\
            read_tree (c14n_write p) = Ok v /\
-           (c14n_wf_elem p = true -> v = normalise p)).
+           (c14n_wf_elem p = true -> v = normalise p) /\
+           (* the premise on the PRESENTED element is enough *)
+           (c14n_wf root = true -> v = normalise p)).
   Proof.
     unfold dsig_validate_reader. intros H.
     destruct (sound_first_signature _ _ _ _ _ _ _ _ _ H) as (root' & f & sb & sin & sinfo2 & r & HF & HSB & HRS & HUS & HL & HX).
@@ -677,7 +839,11 @@ Section Reader.
     assert (HV : read_tree (c14n_write p) = Ok v).
     { unfold reparse_model in HR. destruct (read_tree (c14n_write p)) as [n|e]; [injection HR as <-; reflexivity | discriminate]. }
     split; [exact HV|].
-    intros W. destruct (HRT W) as [R _]. rewrite R in HV. injection HV as <-. reflexivity.
+    assert (HN : c14n_wf_elem p = true -> v = normalise p).
+    { intros W. destruct (HRT W) as [R _]. rewrite R in HV. injection HV as <-. reflexivity. }
+    split; [exact HN|].
+    intros WR. apply HN. apply (canon_prep_wf c0 body p); [|exact HP].
+    destruct (remove_at_path_wf _ _ _ WR HRem) as [Wb Eb]. unfold c14n_wf_elem. rewrite Eb, Wb. reflexivity.
   Qed.
 End Reader.
 
